@@ -331,6 +331,7 @@ func TestVerifC11(t *testing.T) {
 	out := vt.Out(t)
 	defer out.Close()
 	g := &c11gen{rng: vt.Rand(), class: -1}
+	var prevEnc []byte
 	ninst := 2
 	if !vt.Quick() {
 		ninst = 5
@@ -355,6 +356,14 @@ func TestVerifC11(t *testing.T) {
 				o.Instances = append(o.Instances, c11Inst{Encoded: false, Detail: err.Error()})
 				continue
 			}
+			// what a decoder returns for a conforming node must not depend on what it was fed before: the previous node is
+			// decoded again truncated and with trailing bytes (results ignored) before this one
+			if prevEnc != nil {
+				DecodeAny(prevEnc[:len(prevEnc)/2])
+				DecodeAny(append(append([]byte{}, prevEnc...), enc...))
+				DecodeAny([]byte{0x9f, 0x00})
+			}
+			prevEnc = enc
 			o.Instances = append(o.Instances, c11check(&c, enc))
 		}
 		out.Emit(o)
